@@ -18,7 +18,16 @@ def canon_tree(node):
     return ["?", type(node).__name__]
 
 
+class Pre:
+    """wraps something that already is in canonical form"""
+
+    def __init__(self, value):
+        self.value = value
+
+
 def canon(obj):
+    if isinstance(obj, Pre):
+        return obj.value
     if obj is None or isinstance(obj, (bool, int, float)):
         return obj
     if isinstance(obj, enum.Enum):
